@@ -122,6 +122,12 @@ def cases(tier, seed):
         for time in (False, True):
             out.append(dict(target=t_, D=3 if time else 2, time=time, r=1, m=1, B=2))
         out.append(dict(target=t_, D=1, time=False, r=2, m=1, B=2))
+    # boundary condition on one selected component of a vector-valued separable network, constant boundary value
+    for time in (False, True):
+        out.append(dict(target="dirichlet", D=3 if time else 2, time=time, r=1, m=2, B=2, bdim=1))
+    # Fisher-KPP with a spatially heterogeneous growth rate r(x) (a map over the spatial grid for the separable network)
+    out.append(dict(target="fisher_hetero", D=2, time=True, r=2, m=1, B=Bd["B"]))
+    out.append(dict(target="fisher_hetero", D=3, time=True, r=1, m=1, B=2))
     out.append(dict(target="initial", D=2, time=True, r=2, m=1, B=Bd["B"]))
     out.append(dict(target="initial", D=3, time=True, r=1, m=1, B=2))
     return out
@@ -152,7 +158,7 @@ def run_case(case):
     grid_pts = np.array([[Z[idx[dd], dd] for dd in range(D)] for idx in itertools.product(range(B), repeat=D)])  # (B^D, D)
     sp0, tw0 = sp.init_params(), tw.init_params()
     site = f"spinn_vs_pinn/{target}"
-    quadratic = target in ("advection", "burgers", "fisher", "ns", "dirichlet", "neumann", "norm", "initial")
+    quadratic = target in ("advection", "burgers", "fisher", "fisher_hetero", "ns", "dirichlet", "neumann", "norm", "initial")
     site = site.replace("ou_tri", "ou")
     Es = exponent_sets(D, r, m, e0, quadratic)
     zt = jnp.asarray(Z[:, :1]) if time else None
@@ -184,6 +190,20 @@ def run_case(case):
                "advection": lambda t, x, p: OPS._u_dot_nabla_times_u_rev(t, x, tw, p)}[target]
         f_fwd = lambda E: fwd(P_sp(E, eqp))
         f_rev = lambda E: jax.vmap(lambda z: rev(*split(z), P_tw(E, eqp)))(gp)
+    elif target == "fisher_hetero":
+        from jinns.utils._utils import _get_grid
+
+        def r_grid(t, x, u, p):   # separable network: x is (B, ds), the map lives on the spatial grid
+            g = _get_grid(x)
+            return p.eq_params["r"][0] + 0.3 * g[..., 0] - (0.2 * g[..., 1] if g.shape[-1] > 1 else 0.0)
+
+        def r_point(t, x, u, p):  # pointwise network: x is (ds,)
+            return p.eq_params["r"] + 0.3 * x[0] - (0.2 * x[1] if x.shape[0] > 1 else 0.0)
+
+        dl_s = JL.FisherKPP(Tmax=1.5, eq_params_heterogeneity={"D": None, "r": r_grid, "g": None})
+        dl_p = JL.FisherKPP(Tmax=1.5, eq_params_heterogeneity={"D": None, "r": r_point, "g": None})
+        f_fwd = lambda E: dl_s.evaluate(zt, zx, sp, P_sp(E, eqp))
+        f_rev = lambda E: jax.vmap(lambda z: dl_p.evaluate(z[:1], z[1:], tw, P_tw(E, eqp)))(gp)
     elif target in ("burgers", "fisher", "ou", "ou_tri"):
         dl = {"burgers": JL.BurgerEquation(Tmax=1.5), "fisher": JL.FisherKPP(Tmax=1.5), "ou": JL.OU_FPENonStatioLoss2D(Tmax=1.5),
               "ou_tri": OUTri(Tmax=1.5)}[target]
@@ -249,6 +269,11 @@ def run_terms(case, sp, tw, sp0, tw0, Es, Z, grid_pts, eqp):
                 ft = lambda dx: 0.3 + 0.2 * dx[0:1]
             kw_s = dict(omega_boundary_fun=fs, omega_boundary_condition=cond)
             kw_t = dict(omega_boundary_fun=ft, omega_boundary_condition=cond)
+            if case.get("bdim") is not None:
+                # one component of a vector-valued network is constrained to a constant value
+                cst = (lambda t, dx: 0.35) if time else (lambda dx: 0.35)
+                kw_s = dict(omega_boundary_fun=cst, omega_boundary_condition=cond, omega_boundary_dim=case["bdim"])
+                kw_t = dict(omega_boundary_fun=cst, omega_boundary_condition=cond, omega_boundary_dim=case["bdim"])
             lo, hi = [-1.0, 0.5][:ds], [2.0, 1.5][:ds]
             # border batch: per facet, B points with the pinned coordinate on the facet
             fac = []
